@@ -656,6 +656,8 @@ impl World {
         let ctr = Arc::new(AtomicU64::new(base));
         let sent = Arc::new(AtomicU64::new(0));
         let (c2, s2) = (ctr.clone(), sent.clone());
+        let send_failed = Arc::new(AtomicBool::new(false));
+        let sf2 = send_failed.clone();
         let h = tokio::spawn(async move {
             let r = ractor::rpc::multi_call(
                 &refs,
@@ -668,12 +670,16 @@ impl World {
             .await;
             match r {
                 Ok(v) => v.iter().map(|cr| show_res(cr, |v| format!("success:{v}"))).collect::<Vec<_>>().join(","),
-                Err(_) => "err".into(),
+                Err(_) => {
+                    sf2.store(true, Ordering::SeqCst);
+                    "err".into()
+                }
             }
         });
         self.groups.push(Some(h));
         quiesce().await;
-        let failed = self.groups.last().unwrap().as_ref().is_some_and(|h| h.is_finished());
+        // (a group with timeout 0 also completes at once — but without a failed send)
+        let failed = send_failed.load(Ordering::SeqCst);
         // messages accepted: all of them, or (on a failed send) those before the failing one
         let n_built = sent.load(Ordering::SeqCst) as usize;
         let n_acc = if failed && n_built > 0 && n_built <= targets.len() { n_built - 1 } else { n_built };
@@ -692,15 +698,23 @@ impl World {
         if s.is_empty() { "idle".into() } else { s }
     }
 
-    async fn handle(&mut self, a: usize, act: Act) -> String {
+    /// `adv`: the clock moves by `adv` ms in the same op, BEFORE anybody is polled again: the
+    /// handler's action and the deadline are seen together (a reply at the deadline instant)
+    async fn handle(&mut self, a: usize, act: Act, adv: u64) -> String {
         if a >= self.actors.len() {
             return "bad-actor".into();
         }
         if !self.actors[a].alive || self.actors[a].queued == 0 {
+            if adv > 0 {
+                tokio::time::advance(Duration::from_millis(adv)).await;
+            }
             return Self::fmt("idle", self.events().await);
         }
         let _ = self.actors[a].gate.send(act);
         self.actors[a].queued -= 1;
+        if adv > 0 {
+            tokio::time::advance(Duration::from_millis(adv)).await;
+        }
         quiesce().await;
         let pre = self.take_log(a);
         self.note_keeper(a, act, &pre);
@@ -923,8 +937,12 @@ impl World {
                 self.mcall(&v, t(tt)).await
             }
             ["handle", a, act] => match Act::parse(act) {
-                Some(act) => self.handle(a.parse().unwrap_or(99), act).await,
+                Some(act) => self.handle(a.parse().unwrap_or(99), act, 0).await,
                 None => "bad-op".into(),
+            },
+            ["handle", a, act, d] => match (Act::parse(act), d.strip_prefix('+').and_then(|x| x.parse::<u64>().ok())) {
+                (Some(act), Some(d)) => self.handle(a.parse().unwrap_or(99), act, d).await,
+                _ => "bad-op".into(),
             },
             ["later", p, act] => match Act::parse(act) {
                 Some(act) => self.later(p.parse().unwrap_or(u64::MAX), act).await,
@@ -959,7 +977,7 @@ fn gen_act(rng: &mut Rng) -> Act {
 fn gen_timeout(rng: &mut Rng) -> String {
     match rng.below(5) {
         0 | 1 => "-".into(),
-        _ => rng.pick(&[1u64, 2, 3, 5, 10]).to_string(),
+        _ => rng.pick(&[0u64, 1, 2, 3, 5, 10]).to_string(),
     }
 }
 
@@ -1009,7 +1027,9 @@ async fn gen_case(log: &mut Log, st: &mut Stats, rng: &mut Rng, len: u64) {
             119 => if rng.chance(1, 2) { format!("supexit {}", rng.below(nsup as u64)) } else { format!("handle {a} keep") },
             0..=26 => format!("call {a} {}{}", gen_timeout(rng), *rng.pick(&["", "", " m", " m0", " d"])),
             27..=29 => format!("cast {a} {}{}", rng.below(1000), *rng.pick(&["", " f", " m", " d", " ds"])),
-            30..=59 => format!("handle {a} {}", gen_act(rng).show()),
+            30..=56 => format!("handle {a} {}", gen_act(rng).show()),
+            // the handler acts exactly when a deadline is reached (reply at the deadline instant wins)
+            57..=59 => format!("handle {a} {} +{}", gen_act(rng).show(), rng.pick(&[1u64, 2, 3, 5])),
             60..=68 => {
                 // prefer ports that exist
                 let p = if w.next_port > 0 { rng.below(w.next_port) } else { 0 };
@@ -1062,6 +1082,10 @@ async fn gen_case(log: &mut Log, st: &mut Stats, rng: &mut Rng, len: u64) {
                     st.bump("obs_mdone_all_three");
                 }
             }
+        }
+        if line.starts_with("handle") && line.contains(" +") && obs.contains("sent-ok") {
+            // the reply was sent in the very op in which the clock reached / passed its caller's deadline?
+            st.bump("obs_reply_with_clock_jump");
         }
         if obs.starts_with("closed") || obs.starts_with("open") {
             st.bump(&format!("obs_probe_{}", obs.split(' ').next().unwrap()));
